@@ -305,9 +305,13 @@ CHECKS["C19"] = {
     "replay": "model",
     "what": "(a) verify.TdxQuote with a getter failing at a symbolic point: the returned error satisfies errors.As for *trust.AttestationRecreationErr "
             "or verify.CRLUnavailableErr (model of errors.As / fmt.Errorf %w over the engine's error objects; all formats are constants); "
-            "(b) the check tool's main executed symbolically with flags, config message, file system, protobuf decoding and the verify / validate "
-            "verdicts modelled",
-    "bounds": {"see": "DESIGN.md C19"},
+            "(b) tools/check main, parseConfig, populateConfig, populateRootOfTrust, setBool, setUint32, parseRtmrs, parsePaths, readQuote executed "
+            "symbolically with flags (concrete alternatives), decoded config message, file system, protobuf decoding and the verify / validate "
+            "verdicts modelled; os.Exit is a model that checks: exit code equals the first failing step's code (1 usage, 2 verification, 3 download, "
+            "4 policy, 0 only after verification and validation passed), flag overrides config / unset flag leaves config, no panic",
+    "bounds": {"config": "absent / present; policy absent, {}, header only, body only, both; root_of_trust absent / present",
+               "flags": "check_crl, get_collateral in {unset, true, false, malformed}; minimum_qe_svn in {unset, 7, 0x10, 2^32, zz}; qe_vendor_id / mr_seam unset or set; rtmrs {unset, valid, bad hex}; trusted_roots unset / one path",
+               "verdicts": "verify: ok / plain error / collateral download error / CRL download error; policy conversion and validation ok / error"},
     "outside": ["the real flag parsing, real protobuf decoding, process exit status and stderr of the built binary"],
     "assumptions": PKI_ASSUME + ["errors.As walks %w / multierr wrapping; fmt.Errorf wraps exactly the operands of %w"],
 }
